@@ -58,8 +58,7 @@ class Calc(object):
         """statement : expression"""
         p[0] = p[1]
 
-    @staticmethod
-    def p_expression_binop(p):
+    def p_expression_binop(self, p):
         """expression : expression '+' expression
                       | expression '-' expression
                       | expression '*' expression
@@ -67,6 +66,15 @@ class Calc(object):
                       | expression '|' expression
                       | expression LSHIFT expression
                       | expression RSHIFT expression"""
+        try:
+            self._apply_binop(p)
+        except ZeroDivisionError:
+            raise ParseError("division by zero")
+        except ValueError:
+            raise ParseError("invalid shift count '%s'" % p[3])
+
+    @staticmethod
+    def _apply_binop(p):
         if p[2] == '+':
             p[0] = p[1] + p[3]
         elif p[2] == '-':
